@@ -33,7 +33,7 @@ func mapStr[T any](xs []T, f func(T) string) []string {
 	return out
 }
 
-func bits(ts []bool) string {
+func c08bits(ts []bool) string {
 	out := make([]string, len(ts))
 	for i, t := range ts {
 		if t {
@@ -66,7 +66,7 @@ func maurerLines[X sigma.Statement, A sigma.Statement, Z sigma.Response](prefix 
 	}
 	fl = func(rho int, x X, as []A, es [][]byte, zs []Z, ts []bool) string {
 		return fmt.Sprintf("fischlin %s %d %s %s %s %s %s", prefix, rho, rX(x), joinSemi(mapStr(as, rA)),
-			joinComma(mapStr(es, eHex)), joinSemi(mapStr(zs, rZ)), bits(ts))
+			joinComma(mapStr(es, eHex)), joinSemi(mapStr(zs, rZ)), c08bits(ts))
 	}
 	el = func(x X, a A, e1 []byte, z1 Z, e2 []byte, z2 Z) string {
 		return fmt.Sprintf("extract %s %s %s %s %s %s %s", prefix, rX(x), rA(a), eHex(e1), rZ(z1), eHex(e2), rZ(z2))
